@@ -21,7 +21,7 @@
 (*     gp(rows, opt, pre)       target_model.update(x, y, optimize)         *)
 (*     initr(cur, nsr, nsmp, objr)  _init_round returned                    *)
 (*     upd(snapshot)            update(batch, bi) returned                  *)
-(*     ret(raised, left, snapshot)  the public method returned / raised     *)
+(*     ret(raised, left, snapshot, digest)  the public method returned / raised *)
 (* TLC keeps the abstract state S of RoundGate.tla, recomputes every guard  *)
 (* and counter from the logged arguments with RoundGateOps, and compares    *)
 (* with what the real object showed.  The first failing E: clause ends the  *)
@@ -94,7 +94,7 @@ Check(e) ==
          ELSE "ok"
     [] e.ev = "call" -> IF S.mode # "idle" THEN "X:call-inside-call" ELSE "ok"
     [] e.ev = "inits" ->
-         IF T.kind # "bsl" \/ S.mode # "calling" THEN "X:unexpected-init_state"
+         IF T.kind # "bsl" \/ S.mode # "calling" THEN "E:init_state-only-at-a-sample-call"
          ELSE IF e.nb # 0 \/ e.ns # 0 \/ e.rd # 0 \/ e.nsr # 0 \/ e.nsmp # 0 THEN "E:init_state-resets-the-counters"
          ELSE "ok"
     [] e.ev = "obj" ->
@@ -184,6 +184,7 @@ Check(e) ==
          ELSE IF Bo
          THEN IF Len(e.rows) # T.bs THEN "E:surrogate-fed-the-consumed-batch"
               ELSE IF \E i \in 1..Len(e.rows) : e.rows[i][2] # S.cur.bi \/ e.rows[i][3] # i - 1 THEN "E:surrogate-fed-the-consumed-batch"
+              ELSE IF S.cur.t >= 0 /\ Len(S.cur.vals) # T.bs THEN "E:batch-takes-the-next-slice-of-the-acquisition"
               ELSE IF S.cur.t >= 0 /\ \E i \in 1..Len(e.rows) : e.rows[i][1] # S.cur.vals[i] THEN "E:surrogate-fed-the-acquired-points-it-simulated"
               ELSE IF e.opt # ShouldOptimize(S.gpN, T.bs, S.lastOpt, T.upd, NI) THEN "E:update_interval-gates-optimisation"
               ELSE "ok"
@@ -194,7 +195,7 @@ Check(e) ==
               ELSE "ok"
          ELSE "X:surrogate-in-bsl"
     [] e.ev = "proc" ->
-         IF ~Mb \/ S.mode # "update" THEN "X:unexpected-process_simulated"
+         IF ~Mb \/ S.mode # "update" THEN "E:process_simulated-only-inside-update"
          ELSE IF S.procSeen THEN "E:process_simulated-once-per-round"
          ELSE IF S.inRound # T.k \/ Len(S.buf) # T.k THEN "E:process_simulated-exactly-at-a-round-end"
          ELSE IF Len(e.rows) # T.k * T.bs THEN "E:round-hands-over-exactly-n_sim_round-rows"
@@ -221,7 +222,7 @@ Check(e) ==
               ELSE IF S.nSmp < S.nReq /\ e.nsr # 0 THEN "E:init_round-resets-n_sim_round"
               ELSE "ok"
     [] e.ev = "upd" ->
-         IF S.mode # "update" THEN "X:update-without-get"
+         IF S.mode # "update" THEN "E:update-follows-wait_next"
          ELSE IF e.bi # S.cur.bi THEN "E:update-receives-the-consumed-batch"
          ELSE IF Mb /\ S.procSeen # S.roundEnd THEN "E:process_simulated-exactly-at-a-round-end"
          ELSE IF Mb /\ S.initSeen # (IF S.roundEnd /\ S.round < S.objRAtProc THEN 1 ELSE 0) THEN "E:init_round-exactly-when-rounds-remain"
@@ -239,6 +240,8 @@ Check(e) ==
          ELSE IF Bo /\ S.nCons = S.obj /\ S.nCons > 0 /\ ~(S.nEv >= S.arg /\ S.nEv < S.arg + T.bs) THEN "E:n_evidence-total-respected"
          ELSE IF T.kind = "bolfire" /\ (S.round # S.doneB \/ S.nCons # S.round * T.k \/ S.nEv # S.round) THEN "E:terminates-at-the-objective"
          ELSE IF T.kind = "bsl" /\ (S.round # S.objR \/ S.nSmp # S.nReq \/ S.nCons # S.round * T.k) THEN "E:terminates-at-the-objective"
+         \* the whole history gives what the sequential run (native client, one batch at a time) gives
+         ELSE IF l = Len(T.events) /\ ~(Bo /\ T.async) /\ e.digest # T.seq THEN "E:result-independent-of-schedule-and-parallelism"
          ELSE "ok"
     [] OTHER -> "X:unknown-event"
 
